@@ -99,6 +99,24 @@ class Sources:
             return self.resolve('.'.join([mi.imports[head]] + rest[1:]), depth + 1)
         return qual
 
+    def method_owner(self, qual):
+        """for 'pkg.mod.Class.meth': the qualified name of the class (Class itself or a base class defined in the same
+        module, searched in declaration order) whose body defines meth; None when no class in that chain defines it"""
+        mi, rest = self.split(self.resolve(qual))
+        if mi is None or len(rest) != 2 or rest[0] not in mi.classes:
+            return None
+        seen, todo = set(), [rest[0]]
+        while todo:
+            cname = todo.pop(0)
+            if cname in seen or cname not in mi.classes:
+                continue
+            seen.add(cname)
+            node = mi.classes[cname]
+            if any(isinstance(n, ast.FunctionDef) and n.name == rest[1] for n in node.body):
+                return '%s.%s.%s' % (mi.name, cname, rest[1])
+            todo += [b.id for b in node.bases if isinstance(b, ast.Name)]
+        return None
+
     def func(self, qual):
         qual = self.resolve(qual)
         mi, rest = self.split(qual)
